@@ -24,7 +24,7 @@ CLAIMS = {
             "is copied by the copy members and no holder is instantiated for the payload type Any, get<T> guarded by the exact-type test and "
             "otherwise throwing std::runtime_error, and the type-name helper behind toString() / the mismatch message hands "
             "abi::__cxa_demangle only a null or malloc()ed buffer; members of Any that describe the held value (a cached type) are written by every "
-            "member that replaces the holder; every placement-new of an Optional payload is direct (not list) initialisation; the functions of demangle.cpp keep no mutable static state touched without a lock (R-C09-12); an Optional source of every value category is copied by a constructor that takes an Optional (R-C09-13); the holder base through which Any deletes its payload has a virtual destructor (R-C09-14). "
+            "member that replaces the holder; every placement-new of an Optional payload is direct (not list) initialisation; the functions of demangle.cpp keep no mutable static state touched without a lock (R-C09-12); an Optional source of every value category is copied by a constructor that takes an Optional (R-C09-13); the holder base through which Any deletes its payload has a virtual destructor (R-C09-14); an Optional converts to no payload-like type implicitly (R-C09-15); a deduced `U &&` parameter of Optional / Any is never std::move()d - an lvalue argument keeps its value (R-C09-16); no Optional member that constructs or assigns a payload is unconditionally noexcept (R-C09-17); is<T>() compares the complete type names / type_info, never a bounded prefix. "
             "These are necessary structural conditions of the property decided on every path; value equality of what is "
             "returned is not decided.",
             "Trusted: clang 14 front end/CFG; payload types behave as values; *this and the assignment argument are "
@@ -47,7 +47,7 @@ CLAIMS['C16'] = ('proof',
     "(a structural part of the faithfulness clause); a token [begin, end) consists of exactly the bytes of its scan loop (neither the "
     "delimiter that ends the scan nor a consumed delimiter the scan would stop at, no scanned byte lost), children are only appended in "
     "parse order and a property is stored under the name/value pair one parseProp call produced; the backward trim of a text content removes whitespace bytes only (its "
-    "condition evaluated for every byte value, plain char signed); wherever one comment is accepted a run of comments is (after a skipped comment the skipper is tried again before any other parse action, helpers followed); a read loop in readXML has an exit that does not depend on fread delivering bytes, and a negative ftell() result is rejected before it sizes the buffer, and the FILE is closed on every return and when a callee throws; memcmp-style block comparisons stay inside the bytes known to be in the buffer and results of strstr/strchr are tested for null before use; writes through self-allocated buffers stay inside them; a length returned by snprintf/vsnprintf is clamped before it is used to read the buffer (R-C16-15); no std::sto* conversion of document text outside a try block that converts std::invalid_argument / std::out_of_range (R-C16-16); every return of readXML is reached only through a read of the file in this call (R-C16-17); no static object is changed by the parser without a lock (readXML may run concurrently on different files), memcpy from the cursor needs all its bytes inside the buffer, a buffer from new[] is zeroed or the parse is bounded by what fread delivered. Obligations = one per "
+    "condition evaluated for every byte value, plain char signed); wherever one comment is accepted a run of comments is (after a skipped comment the skipper is tried again before any other parse action, helpers followed); a read loop in readXML has an exit that does not depend on fread delivering bytes, and a negative ftell() result is rejected before it sizes the buffer, and the FILE is closed on every return and when a callee throws; memcmp-style block comparisons stay inside the bytes known to be in the buffer and results of strstr/strchr are tested for null before use; writes through self-allocated buffers stay inside them; a length returned by snprintf/vsnprintf is clamped before it is used to read the buffer (R-C16-15); no std::sto* conversion of document text outside a try block that converts std::invalid_argument / std::out_of_range (R-C16-16); every return of readXML is reached only through a read of the file in this call (R-C16-17); no static object is changed by the parser without a lock (readXML may run concurrently on different files), memcpy from the cursor needs all its bytes inside the buffer, a buffer from new[] is zeroed or the parse is bounded by what fread delivered; no alloca / variable-length array sized by a token (R-C16-18); the parse functions do not leave the file buffer modified - a byte replaced temporarily is written back to the place it was saved from, any other store into the buffer is not decided (R-C16-19). Obligations = one per "
     "analysed function and clause; all must be discharged. The faithfulness clause (returned tree equals the generating "
     "tree) is a value-level property and is not decided.",
     "Trusted: clang 14 CFG; isalpha/isdigit/isspace are false at NUL; the abstract transfer functions of the rule engine "
@@ -71,7 +71,7 @@ TECH = {
             'Built-in arithmetic element types, no NaN, no UB. Not decided: floating-point rounding (any association order of a sum is accepted); the scalar kernels rcp/rsqrt/madd (C07).'),
     'C05': ('order-atom truth tables, lattice-shape matching, polynomial normal form, corner-set enumeration on the dependent AST and typed instantiations; LLVM-IR identities against per-axis definitions',
             'Relies on C04 for vec min/max/anyLessThan. Not decided: rounding ("within rounding"), NaN bounds, correctness of xfmPoint itself (C06), conditioning of the affine map; clamp on inverted ranges is a precondition.'),
-    'C06': ('translation validation of identity drivers: LLVM-IR value-graph normal form of both sides (real compiler does overload resolution/inlining), exact rational-function identity with sympy; AST/CFG shape rules (linear program over branch guards, dominance, interval iteration of the Newton step in the singular-value domain, interval range of sin/cos denominators, translation-independence of xfmVector/xfmNormal, alignment of SIMD load/store operands)',
+    'C06': ('translation validation of identity drivers: LLVM-IR value-graph normal form of both sides (real compiler does overload resolution/inlining), exact rational-function identity with sympy; AST/CFG shape rules (linear program over branch guards, dominance, interval iteration of the Newton step in the singular-value domain, interval range of sin/cos denominators, translation-independence of xfmVector/xfmNormal, alignment of SIMD load/store operands, no reciprocal of the determinant formed on the way from det() to the result of inverse())',
             'Real-number semantics of float operations; non-zero denominators; sin^2+cos^2=1 and the double-angle formulas as trig facts. Not decided: '
             'tolerance vs condition number (rounding) beyond the conditioning/orthogonal() clauses, the slerp weights strictly between the end points, SIMD rcp/rsqrt approximations (C07; the padded SIMD configuration skips the three identities that go through them); orthogonal() assumes singular values in [1/64, 64]. '
             'AffineSpaceT::rotate(p, quaternion) cannot be instantiated at all (observation).'),
